@@ -68,7 +68,7 @@ func c17Setup(workDir string) (*c17Tree, error) {
 	return c17T, c17Err
 }
 
-var c17Segs = []string{"..", ".", "", "%2e%2e", "..%2f", "%2F", "\\", "..\\", "%00", "\x00", "a.css", "c.txt", "sub", "deep", "b.js", "d.css", ".hidden", "secret.txt", "secret.js", "config.css", "rootx", "s.css", "root.bak", "root", "styles.scss", "app.mjs", "nojs", "x.tcss", "a.css.", "a.css ", "A.CSS", "index.html", "x y.css", "..;", "%2e", "%252e%252e", "....//", "a.css%00.txt", "c.txt.css", "readme", "%5c..", "..%5c"}
+var c17Segs = []string{"..", ".", "", "%2e%2e", "..%2f", "%2F", "\\", "..\\", "%00", "\x00", "a.css", "c.txt", "sub", "deep", "b.js", "d.css", ".hidden", "secret.txt", "secret.js", "config.css", "rootx", "s.css", "root.bak", "root", "styles.scss", "app.mjs", "nojs", "x.tcss", "a.css.", "a.css ", "A.CSS", "index.html", "x y.css", "..;", "%2e", "%252e%252e", "....//", "a.css%00.txt", "c.txt.css", "readme", "%5c..", "..%5c", "c.txt%3F.css", "c.txt%23.js", "styles.scss%3Fv=1.css", "c.txt%3F", "%23.css", "sub%3F", "c.txt;.css", "c.txt%26.js"}
 
 func c17Path(r *rand.Rand, prefix string, t *c17Tree) string {
 	var segs []string
@@ -272,6 +272,16 @@ func runC17(e *Env) {
 						if strings.HasSuffix(matched, "."+x) {
 							okExt = true
 						}
+					}
+					servedExt := false
+					for _, x := range strings.Split(exts, "|") {
+						if strings.HasSuffix(f, "."+x) {
+							servedExt = true
+						}
+					}
+					if !servedExt {
+						t.Fail("extension-filter-bypassed:served-file", "%s on StaticFiles(%s, exts %q): served the content of %q, a file whose name does not end in an allowed extension", cur, prefix, exts, f)
+						return
 					}
 					if !okExt {
 						t.Fail("extension-filter-bypassed", "%s on StaticFiles(%s, exts %q): served %q although the request path does not end in an allowed extension", cur, prefix, exts, f)
